@@ -21,7 +21,10 @@
 (*                           api-*: WithUIPath ("" = not given)             *)
 (*        doc      : bytes   Spec: WithSpecDocument ("" = not given)        *)
 (*        specurl  : [kind : "default" | "abspath" | "absurl" | "relative", *)
-(*                    dirs : Seq(bytes), doc : bytes, host, query : bytes]  *)
+(*                    dirs : Seq(bytes), doc : bytes, host, query : bytes,  *)
+(*                    enc : BOOLEAN]   dirs/doc are the DECODED segments;   *)
+(*                           enc: the text given to WithUISpecURL spells     *)
+(*                           space and non-ASCII bytes percent-encoded       *)
 (*                           the UI's SpecURL option, structured            *)
 (*        oauthurl : bytes   SwaggerUIOpts.OAuthCallbackURL ("" = derived)  *)
 (*        hasnext  : BOOLEAN a next handler is installed (standalone kinds) *)
@@ -35,6 +38,8 @@ EXTENDS Naturals, Sequences, FiniteSets, TLC
 
 CONSTANT OAuthEscapes  \* TRUE (normative): the OAuth2 callback page is rendered with html/template
                        \* FALSE (as built, finding D13): text/template, nothing is escaped
+CONSTANT SpecRouteEscaped \* FALSE (the code): uiOptionsForHandler takes the decoded url.Parse(SpecURL).Path
+                          \* TRUE: a mutant taking EscapedPath() - kept to show that TLC finds a violation
 
 SLASH == 47  DOT == 46  PCT == 37  AMP == 38  BSL == 92
 
@@ -188,16 +193,27 @@ IsAPI(cfg) == cfg.kind \in {"api-redoc", "api-swaggerui", "api-rapidoc"}
 UIKind(cfg) == CASE cfg.kind = "api-redoc" -> "redoc" [] cfg.kind = "api-swaggerui" -> "swaggerui"
                  [] cfg.kind = "api-rapidoc" -> "rapidoc" [] OTHER -> cfg.kind
 
-(* the SpecURL option as text's URL path (url.Parse(SpecURL).Path)           *)
-SpecURLPath(su) ==
-  CASE su.kind = "default"  -> <<>>
-    [] su.kind = "relative" -> Concat(su.dirs \o <<su.doc>>)
-    [] OTHER                -> JoinSegs(su.dirs) \o <<SLASH>> \o su.doc        \* abspath, absurl
+(* percent-encoding of the bytes URLs encode in a path segment (space, non-ASCII) *)
+HexUp(n) == IF n < 10 THEN 48 + n ELSE 55 + n
+RECURSIVE EncSeg(_)
+EncSeg(s) == IF s = <<>> THEN <<>>
+             ELSE (IF Head(s) = 32 \/ Head(s) >= 128 THEN <<PCT, HexUp(Head(s) \div 16), HexUp(Head(s) % 16)>> ELSE <<Head(s)>>)
+                  \o EncSeg(Tail(s))
+EncSegs(segs) == [i \in DOMAIN segs |-> EncSeg(segs[i])]
+
+(* the SpecURL option's URL path: url.Parse(SpecURL).Path (decoded) and, with enc, its percent-encoded spelling *)
+SpecURLPathOf(su, enc) ==
+  LET dirs == IF enc THEN EncSegs(su.dirs) ELSE su.dirs
+      doc  == IF enc THEN EncSeg(su.doc) ELSE su.doc
+  IN CASE su.kind = "default"  -> <<>>
+       [] su.kind = "relative" -> Concat(dirs \o <<doc>>)
+       [] OTHER                -> JoinSegs(dirs) \o <<SLASH>> \o doc        \* abspath, absurl
+SpecURLPath(su) == SpecURLPathOf(su, FALSE)
 
 (* the SpecURL option as text: what WithUISpecURL is given and the page must reference *)
 SpecURLText(su) ==
   (IF su.kind = "absurl" THEN <<104,116,116,112,115,58,47,47>> \o su.host ELSE <<>>)      \* "https://" host
-  \o SpecURLPath(su) \o (IF su.query = <<>> THEN <<>> ELSE <<63>> \o su.query)
+  \o SpecURLPathOf(su, su.enc) \o (IF su.query = <<>> THEN <<>> ELSE <<63>> \o su.query)
 
 (* Spec(basePath, b, next, WithSpecPath(p), WithSpecDocument(d))            *)
 SpecDocPathOf(basePath, optPath, optDoc) ==
@@ -217,7 +233,7 @@ WithUIBasePath(b) == IF b # <<>> /\ b[1] = SLASH THEN b ELSE <<SLASH>> \o b
 
 (* uiOptionsForHandler: spec route derived from the UI's SpecURL              *)
 HandlerSpecPath(cfg) ==
-  LET sp == PathSplit(SpecURLPath(cfg.specurl))
+  LET sp == PathSplit(SpecURLPathOf(cfg.specurl, SpecRouteEscaped))
       pth == IF sp.dir = <<DOT>> THEN <<>> ELSE sp.dir
   IN SpecDocPathOf(pth, <<>>, sp.file)
 
